@@ -293,6 +293,10 @@ def m15():
                 f(&b)
             }""", DEC_LE)
 
+@mutant("own16-encode-native-endian", True, "a big-endian host: the hand-written codec uses to_ne_bytes / from_ne_bytes ('native is fastest'); on every little-endian machine, including this one, it is bit-for-bit right")
+def m16():
+    manual_codec(ENC_LE.replace("to_le_bytes", "to_ne_bytes"), DEC_LE.replace("from_le_bytes", "from_ne_bytes"))
+
 # ---- refactorings that must NOT raise an alarm
 @mutant("ok01-fields-reordered", False, "n/a: phantom field first; encoding unchanged")
 def n01():
